@@ -333,8 +333,8 @@ package xpath
 //@   ensures[nonnil@C15] result != nil
 //@   requires[nonnil-args@C15] arg1 != nil && arg2 != nil
 //@ func startwithFunc$1
-//@   props C15 C04 C05 C13
-//@   theory stream for C04 C05 C14 C13
+//@   props C15 C04 C05 C13 C09
+//@   theory stream for C04 C05 C14 C13 C09
 //@   ensures[pure-arg1@C04,C05] stateless(arg1) || k(arg1) == old(k(arg1)) && epoch(arg1) == old(epoch(arg1))
 //@   ensures[pure-arg2@C04,C05] stateless(arg2) || k(arg2) == old(k(arg2)) && epoch(arg2) == old(epoch(arg2))
 //@   panics "starts-with() function argument type must be string"
@@ -342,6 +342,7 @@ package xpath
 //@   captures arg1 != nil && arg2 != nil
 //@   uses one-document
 //@   loop * invariant[cursor@C13] cur(t) == old(cur(t)) && pos(cur(t)) == old(pos(cur(t)))
+//@   ensures[starts-with@C09] bound(n, 1) ==> result == box(str_hasprefix(m, n))
 
 //@ func endwithFunc
 //@   props C15
@@ -349,8 +350,8 @@ package xpath
 //@   ensures[nonnil@C15] result != nil
 //@   requires[nonnil-args@C15] arg1 != nil && arg2 != nil
 //@ func endwithFunc$1
-//@   props C15 C04 C05 C13
-//@   theory stream for C04 C05 C14 C13
+//@   props C15 C04 C05 C13 C09
+//@   theory stream for C04 C05 C14 C13 C09
 //@   ensures[pure-arg1@C04,C05] stateless(arg1) || k(arg1) == old(k(arg1)) && epoch(arg1) == old(epoch(arg1))
 //@   ensures[pure-arg2@C04,C05] stateless(arg2) || k(arg2) == old(k(arg2)) && epoch(arg2) == old(epoch(arg2))
 //@   panics "ends-with() function argument type must be string"
@@ -358,6 +359,7 @@ package xpath
 //@   captures arg1 != nil && arg2 != nil
 //@   uses one-document
 //@   loop * invariant[cursor@C13] cur(t) == old(cur(t)) && pos(cur(t)) == old(pos(cur(t)))
+//@   ensures[ends-with@C09] bound(n, 1) ==> result == box(str_hassuffix(m, n))
 
 //@ func containsFunc
 //@   props C15
@@ -365,8 +367,8 @@ package xpath
 //@   ensures[nonnil@C15] result != nil
 //@   requires[nonnil-args@C15] arg1 != nil && arg2 != nil
 //@ func containsFunc$1
-//@   props C15 C04 C05 C13
-//@   theory stream for C04 C05 C14 C13
+//@   props C15 C04 C05 C13 C09
+//@   theory stream for C04 C05 C14 C13 C09
 //@   ensures[pure-arg1@C04,C05] stateless(arg1) || k(arg1) == old(k(arg1)) && epoch(arg1) == old(epoch(arg1))
 //@   ensures[pure-arg2@C04,C05] stateless(arg2) || k(arg2) == old(k(arg2)) && epoch(arg2) == old(epoch(arg2))
 //@   panics "contains() function argument type must be string"
@@ -374,6 +376,7 @@ package xpath
 //@   captures arg1 != nil && arg2 != nil
 //@   uses one-document
 //@   loop * invariant[cursor@C13] cur(t) == old(cur(t)) && pos(cur(t)) == old(pos(cur(t)))
+//@   ensures[contains@C09] bound(n, 1) ==> result == box(str_contains(m, n))
 
 //@ func matchesFunc
 //@   props C15
@@ -397,8 +400,8 @@ package xpath
 //@   ensures[nonnil@C15] result != nil
 //@   requires[nonnil-args@C15] arg1 != nil
 //@ func normalizespaceFunc$1
-//@   props C15 C04 C05 C13
-//@   theory stream for C04 C05 C14 C13
+//@   props C15 C04 C05 C13 C09
+//@   theory stream for C04 C05 C14 C13 C09
 //@   ensures[pure-arg1@C04,C05] stateless(arg1) || k(arg1) == old(k(arg1)) && epoch(arg1) == old(epoch(arg1))
 //@   conforms functionQuery.Func
 //@   captures arg1 != nil
@@ -412,8 +415,8 @@ package xpath
 //@   ensures[nonnil@C15] result != nil
 //@   requires[nonnil-args@C15] arg1 != nil && arg2 != nil
 //@ func substringFunc$1
-//@   props C15 C04 C05 C13
-//@   theory stream for C04 C05 C14 C13
+//@   props C15 C04 C05 C13 C09
+//@   theory stream for C04 C05 C14 C13 C09
 //@   ensures[pure-arg1@C04,C05] stateless(arg1) || k(arg1) == old(k(arg1)) && epoch(arg1) == old(epoch(arg1))
 //@   ensures[pure-arg2@C04,C05] stateless(arg2) || k(arg2) == old(k(arg2)) && epoch(arg2) == old(epoch(arg2))
 //@   ensures[pure-arg3@C04,C05] arg3 != nil ==> stateless(arg3) || k(arg3) == old(k(arg3)) && epoch(arg3) == old(epoch(arg3))
@@ -422,6 +425,8 @@ package xpath
 //@   captures arg1 != nil && arg2 != nil
 //@   uses one-document
 //@   loop * invariant[cursor@C13] cur(t) == old(cur(t)) && pos(cur(t)) == old(pos(cur(t)))
+//@   ensures[substring3@C09] bound(start, 1) && bound(length, 1) && arg3 != nil ==> result == box(subStr(m, subLo(ver(start, 1)), subHi(ver(start, 1), ver(length, 1), float(len(m)))))
+//@   ensures[substring2@C09] bound(start, 1) && arg3 == nil ==> result == box(subStr(m, subLo(ver(start, 1)), float(len(m)) + 1.0))
 
 //@ func substringIndFunc
 //@   props C15
@@ -429,14 +434,17 @@ package xpath
 //@   ensures[nonnil@C15] result != nil
 //@   requires[nonnil-args@C15] arg1 != nil && arg2 != nil
 //@ func substringIndFunc$1
-//@   props C15 C04 C05 C13
-//@   theory stream for C04 C05 C14 C13
+//@   props C15 C04 C05 C13 C09
+//@   theory stream for C04 C05 C14 C13 C09
 //@   ensures[pure-arg1@C04,C05] stateless(arg1) || k(arg1) == old(k(arg1)) && epoch(arg1) == old(epoch(arg1))
 //@   ensures[pure-arg2@C04,C05] stateless(arg2) || k(arg2) == old(k(arg2)) && epoch(arg2) == old(epoch(arg2))
 //@   conforms functionQuery.Func
 //@   captures arg1 != nil && arg2 != nil
 //@   uses one-document
 //@   loop * invariant[cursor@C13] cur(t) == old(cur(t)) && pos(cur(t)) == old(pos(cur(t)))
+//@   ensures[before@C09] bound(i, 0) && !after ==> result == box(ite(word == "" || str_index(str, word) < 0, "", str[0:str_index(str, word)]))
+//@   ensures[after@C09] bound(i, 0) && after ==> result == box(ite(word == "" || str_index(str, word) < 0, "", str[str_index(str, word)+len(word):len(str)]))
+//@   ensures[empty-word@C09] bound(word, 1) && word == "" ==> result == box("")
 
 //@ func stringLengthFunc
 //@   props C15
@@ -523,13 +531,14 @@ package xpath
 //@   ensures[nonnil@C15] result != nil
 //@   requires[nonnil-args@C15] arg1 != nil
 //@ func lowerCaseFunc$1
-//@   props C15 C04 C05 C13
-//@   theory stream for C04 C05 C14 C13
+//@   props C15 C04 C05 C13 C09
+//@   theory stream for C04 C05 C14 C13 C09
 //@   ensures[pure-arg1@C04,C05] stateless(arg1) || k(arg1) == old(k(arg1)) && epoch(arg1) == old(epoch(arg1))
 //@   conforms functionQuery.Func
 //@   captures arg1 != nil
 //@   uses one-document
 //@   loop * invariant[cursor@C13] cur(t) == old(cur(t)) && pos(cur(t)) == old(pos(cur(t)))
+//@   ensures[lower-case@C09] exists(x, string, result == box(str_tolower(x)))
 
 //@ func positionFunc$1
 //@   props C15 C13
@@ -549,10 +558,10 @@ package xpath
 //@   ensures[nonnil@C15] result != nil
 //@   requires[nonnil-args@C15] elemsNonNil(args)
 //@ func concatFunc$1
-//@   props C15 C13
+//@   props C15 C13 C09
 //@   conforms functionQuery.Func
 //@   captures elemsNonNil(args)
-//@   theory stream for C13
+//@   theory stream for C13 C09
 //@   uses one-document
 //@   loop * invariant[cursor@C13] cur(t) == old(cur(t)) && pos(cur(t)) == old(pos(cur(t)))
 //@ func (*builder).processFunction$1
@@ -703,17 +712,20 @@ package xpath
 //@   ensures[cursor-restored@C13] pos(cur(t)) == old(pos(cur(t)))
 //@   loop * invariant[cursor@C13] cur(t) == old(cur(t)) && pos(cur(t)) == old(pos(cur(t)))
 //@ func asString
-//@   props C15 C13 C08
+//@   props C15 C13 C08 C09
 //@   requires[@C15] t != nil && (v == nil || valtype(v))
 //@   receiver v
 //@   tree-frame
 //@   disjoint-operands
 //@   preserves heap(F:NodeIterator.*)
-//@   theory stream for C13 C08
+//@   theory stream for C13 C08 C09
 //@   uses one-document
 //@   ensures[cursor-restored@C13] pos(cur(t)) == old(pos(cur(t)))
 //@   loop * invariant[cursor@C13] cur(t) == old(cur(t)) && pos(cur(t)) == old(pos(cur(t)))
 //@   ensures[number-to-string@C08] is(v, float64) ==> result == fmtf_(as(v, float64))
+//@   ensures[string@C09] is(v, string) ==> result == as(v, string)
+//@   ensures[boolean@C09] is(v, bool) ==> result == ite(as(v, bool), "true", "false")
+//@   ensures[nil@C09] v == nil ==> result == ""
 //@ func asNumber
 //@   props C15 C08 C13
 //@   requires[@C15] t != nil
@@ -2077,3 +2089,19 @@ package xpath
 //@ func builderPool.New
 //@   props C15
 //@   modifies nothing
+
+// ---------------------------------------------------------------------------
+// C09: string functions.
+// XPath round(): the closest integer, a tie towards positive infinity.
+//@ define xround(f) = ite(f - floor(f) >= 0.5, floor(f) + 1.0, floor(f))
+// substring(m, s, l): the characters at the positions p with round(s) <= p < round(s) + round(l),
+// i.e. from max(round(s), 1) up to min(round(s) + round(l), len + 1); nothing when that range is
+// empty or an argument is NaN.
+//@ define subLo(s) = ite(xround(s) < 1.0, 1.0, xround(s))
+//@ define subHi(s, l, n) = ite(xround(s) + xround(l) > n + 1.0, n + 1.0, xround(s) + xround(l))
+//@ define subStr(m, lo, hi) = ite(lo < hi, m[int(lo) - 1 : int(hi) - 1], "")
+//@ func roundHalfUp
+//@   props C15 C09
+//@   modifies nothing
+//@   ensures[xpath-round@C09] sameF(result, xround(f))
+//@   ensures[nearest-tie-up@C09] !isNaN(f) && !isInf(f) ==> floor(result) == result && result - f <= 0.5 && f - result < 0.5
